@@ -278,11 +278,100 @@ def run_job(job, prop, tier, seed, scratch, ev):
             ev["samples"].extend((tot.get("samples") or [])[:1])
     elif mode == "go":
         plan.run_go_job(job, prop, tier, seed, scratch, ev, rec, ROOT, ENV, tlc, tlc_stats, Infra)
+    elif mode == "trace":
+        run_trace_job(job, prop, seed, scratch, ev, rec)
     rec["wall_s"] = round(time.time() - t0, 1)
     ev["jobs"].append(rec)
 
 
+def validate_trace(trace_path, cfg, module, scratch, timeout=900):
+    """TLC trace validation: returns (accepted, high_water_line, states)."""
+    d = tempfile.mkdtemp(prefix="trace-", dir=scratch)
+    for f in os.listdir(os.path.join(ROOT, "spec")):
+        if f.endswith(".tla") or f.endswith(".cfg"):
+            shutil.copy(os.path.join(ROOT, "spec", f), d)
+    shutil.copy(trace_path, os.path.join(d, "trace.ndjson"))
+    p = subprocess.run(["timeout", str(timeout), "tlc", "-workers", "1", "-metadir", os.path.join(d, "md"), "-config", cfg + ".cfg", module],
+                       cwd=d, capture_output=True, text=True)
+    out = p.stdout
+    hw = 0
+    for m in re.finditer(r'<<"HW", (\d+)>>', out):
+        hw = max(hw, int(m.group(1)))
+    m = re.search(r"(\d+) states generated", out)
+    states = int(m.group(1)) if m else 0
+    shutil.rmtree(d, ignore_errors=True)
+    if "Invariant NotAccepted is violated" in out:
+        return True, hw, states
+    if "Model checking completed. No error has been found" in out:
+        return False, hw, states
+    raise Infra("TLC trace validation did not finish: " + out[-1500:])
+
+
+def run_trace_job(job, prop, seed, scratch, ev, rec):
+    """I->S: a driver runs the real code (real parallelism) and records an ndjson trace; TLC validates it."""
+    trace = os.path.join(scratch, "trace.ndjson")
+    cmd = [os.path.join(ROOT, "bin", job["tool"])] + [a.replace("{seed}", str(seed)) for a in job["args"]] + ["-out", trace]
+    errf = os.path.join(scratch, "driver.stderr")
+    with open(errf, "w") as ef:
+        p = subprocess.run(cmd, stdout=subprocess.PIPE, stderr=ef, text=True, timeout=job.get("timeout", 1500), env=dict(ENV, VERIF_STDERR="1"))
+    if p.returncode not in (0, 1):
+        pl = panic_line(errf)
+        if pl is None:
+            raise Infra("%s failed (rc=%d): %s" % (job["tool"], p.returncode, tail(errf, 600)))
+        v = dict(property=prop, kind=job.get("kind", ""), n=0, why="the process died during a parallel run: " + pl, steps=[{"name": " ".join(cmd)}],
+                 tool=job["tool"], hash="trace-crash-%d" % seed, confirm_cmd=" ".join(cmd) + " >/dev/null 2>&1; test $? -gt 1 && exit 1 || exit 0")
+        v["class"] = "crash"
+        ev["violations"].append(v)
+        ev["nviol"] += 1
+        return
+    s = json.loads(p.stdout.strip().splitlines()[-1])
+    rec.update(rounds=s.get("rounds"), events=s.get("events"), calls=s.get("calls"), parallel_exchanges=s.get("parallel_exchanges"))
+    for v in s.get("violations") or []:
+        v["confirm_cmd"] = " ".join(cmd) + " >/dev/null 2>&1"
+        ev["violations"].append(v)
+        ev["nviol"] += 1
+    lines = open(trace).read().splitlines()
+    accepted, hw, states = validate_trace(trace, job["cfg"], job["module"], scratch)
+    ev["states"] += states
+    ev["transitions"] += states
+    rec.update(accepted=accepted, high_water=hw, trace_lines=len(lines), states=states)
+    ev["checked"]["trace events validated"] = ev["checked"].get("trace events validated", 0) + (len(lines) if accepted else max(hw - 1, 0))
+    if accepted:
+        ev["traces_validated"] += s.get("rounds", 0)
+        ev["go_evaluations"] += s.get("rounds", 0)
+        ev["go_distinct"] += s.get("rounds", 0)
+        if len(ev["samples"]) < 3:
+            ev["samples"].append({"mode": "recorded trace (first events)", "events": [json.loads(x) for x in lines[:25]]})
+        return
+    # rejected: cut out the round that contains the first event no one-at-a-time order explains
+    start = 0
+    for i in range(min(hw, len(lines)) - 1, -1, -1):
+        if json.loads(lines[i]).get("event") == "reset" and i < hw - 1:
+            start = i + 1
+            break
+    end = len(lines)
+    for i in range(hw - 1, len(lines)):
+        if json.loads(lines[i]).get("event") == "reset":
+            end = i + 1
+            break
+    bad = lines[start:end]
+    os.makedirs(os.path.join(ROOT, "evidence", "replays"), exist_ok=True)
+    tpath = os.path.join(ROOT, "evidence", "replays", "%s-trace-%d.ndjson" % (prop, seed))
+    open(tpath, "w").write("\n".join(bad) + "\n")
+    v = dict(property=prop, kind=job.get("kind", ""), n=0, tool="tlc-trace",
+             why="a recorded parallel execution equals no one-at-a-time order of its requests: event %d of the round (%s) cannot be explained"
+                 % (hw - start, lines[hw - 1] if 0 < hw <= len(lines) else "?"),
+             steps=[json.loads(x) for x in bad], hash="trace-%d-%d" % (seed, start), trace_file=tpath, cfg=job["cfg"], module=job["module"])
+    v["class"] = "rejected-trace"
+    ev["violations"].append(v)
+    ev["nviol"] += 1
+
+
 def confirm(v, scratch):
+    if v.get("class") == "rejected-trace":
+        # the recorded execution itself is the evidence: TLC must reject it again
+        accepted, _, _ = validate_trace(v["trace_file"], v["cfg"], v["module"], scratch)
+        return not accepted
     """Re-run a violation's steps once in a fresh worker; True if it fails again."""
     if v.get("confirm_cmd"):
         for _ in range(3):
